@@ -428,7 +428,7 @@ PROPS['C01'] = {
               {'unit': 'cloud', 'fns': ['GenericCloud::responder_block', 'GenericCloud::handle_net_message']},
               # "accepts its payload only from a party that proved possession": before the handshake produced a core, or plain mode was
               # negotiated, no non-handshake datagram is interpreted by the per-peer object (also while the handshake is pending)
-              {'unit': 'buffer', 'fns': ['PeerCrypto::(decrypt_message|handle_message|handle_init_message|get_core|get_init)', 'is_init_message']},
+              {'unit': 'buffer', 'fns': ['PeerCrypto::(decrypt_message|handle_message|handle_init_message|get_core|get_init|new|initialize)', 'is_init_message']},
               # a peer entry is created only out of a pending handshake object for that address (GenericCloud::add_new_peer)
               {'unit': 'peers', 'fns': ['GenericCloud::add_new_peer', 'GenericCloud::update_peer_info', 'canary_.*']},
               # mechanisms (2) and (4) on the WHOLE of InitState::handle_init: nothing altered when the decoder rejects; success only
